@@ -47,21 +47,22 @@ type Program struct {
 	parents map[*ast.File]map[ast.Node]ast.Node
 
 	// lazily built
-	ssaProg  *ssa.Program
-	ssaPkgs  map[*types.Package]*ssa.Package
-	cg       *callgraph.Graph
-	chaCG    *callgraph.Graph
-	siteCall map[token.Pos][]*ssa.Function // call Lparen -> callees (VTA)
-	declOf   map[*types.Func]*FuncSrc
-	litOf    map[*ast.FuncLit]*FuncSrc
-	allSrc   []*FuncSrc
-	callAt   map[token.Pos]*CallSite
-	modsets  map[*ssa.Function]map[types.Object]bool
-	fnOfSSA  map[*ssa.Function]*FuncSrc
-	effects  *Effects
-	srcSSA   map[*FuncSrc][]*ssa.Function
-	facts    *FactEngine
-	callers  map[*FuncSrc][]callerSite
+	ssaProg   *ssa.Program
+	ssaPkgs   map[*types.Package]*ssa.Package
+	cg        *callgraph.Graph
+	chaCG     *callgraph.Graph
+	siteCall  map[token.Pos][]*ssa.Function // call Lparen -> callees (VTA)
+	declOf    map[*types.Func]*FuncSrc
+	litOf     map[*ast.FuncLit]*FuncSrc
+	allSrc    []*FuncSrc
+	callAt    map[token.Pos]*CallSite
+	modsets   map[*ssa.Function]map[types.Object]bool
+	fnOfSSA   map[*ssa.Function]*FuncSrc
+	effects   *Effects
+	srcSSA    map[*FuncSrc][]*ssa.Function
+	facts     *FactEngine
+	intervals *IntervalAnalysis
+	callers   map[*FuncSrc][]callerSite
 }
 
 // FuncSrc is a source function (declaration or literal) of the module.
